@@ -367,7 +367,39 @@ func streamBody(rng *rand.Rand, n int) []byte {
 	if rng.Intn(8) == 0 {
 		b = append([]byte{0xff, 0xff, 0xff, 0xff, byte(rng.Intn(256))}, b...)
 	}
+	if rng.Intn(4) == 0 {
+		// a hostile length prefix of any width a varint reader might accept (up to 10 bytes carry 64 bits) and beyond:
+		// at the front, behind a well-formed item, or as the whole body
+		pre := hostilePrefix(rng)
+		switch rng.Intn(3) {
+		case 0:
+			b = append(pre, b...)
+		case 1:
+			b = append(portalwire.VerifEncodeContents([][]byte{randBytes(rng, []int{0, 1, 127, 128}[rng.Intn(4)])}), append(pre, randBytes(rng, rng.Intn(12))...)...)
+		case 2:
+			b = append(pre, randBytes(rng, rng.Intn(12))...)
+		}
+	}
 	return b
+}
+
+// hostilePrefix returns c continuation bytes (0..11) followed by a terminating byte: every width from the one-byte
+// prefix to one that overflows 64 bits, with all value bits set, none set, or random ones.
+func hostilePrefix(rng *rand.Rand) []byte {
+	c := rng.Intn(12)
+	pre := make([]byte, 0, c+1)
+	style := rng.Intn(3)
+	for i := 0; i < c; i++ {
+		switch style {
+		case 0:
+			pre = append(pre, 0xff)
+		case 1:
+			pre = append(pre, 0x80)
+		default:
+			pre = append(pre, 0x80|byte(rng.Intn(128)))
+		}
+	}
+	return append(pre, []byte{0x00, 0x01, 0x0f, 0x10, 0x7f, byte(rng.Intn(128))}[rng.Intn(6)])
 }
 
 // utpPacket returns a raw uTP packet (20-byte header + payload) with hostile fields.
